@@ -6,7 +6,7 @@ PROP = dict(
     bounded_budget=dict(quick=45, thorough=420),
     assumptions=[],
     trusted_base=['z3 5.1 / cvc5 1.0.3', 'pyvc symbolic executor and its encoding of Python (DESIGN.md section 2.3)', 'CPython 3.12, PLY 3.11 (A-PLY)'],
-    manifest=dict(text='Deductive core (tier P, 37 obligations): accept_ReturnNode/BodyNode (value delivery, scope restored, self bound), Block/StatementList (order), Break/Continue/Control, While (alternation until false condition or break). Bounded: every callable kind x return form x 11 call contexts, recursion and mutual recursion across all kind pairs, random call graphs of depth <=3, enumerators/constants under every row permutation of the model file.',
+    manifest=dict(text='Deductive core (tier P, 45 obligations): accept_ReturnNode/BodyNode (value delivery, scope restored, self bound), Block/StatementList (order), Break/Continue/Control, While (alternation until false condition or break). Bounded: every callable kind x return form x 11 call contexts, recursion and mutual recursion across all kind pairs, random call graphs of depth <=3, enumerators/constants under every row permutation of the model file.',
                   note='PLY (A-PLY); pure callees inside where clauses.',
                   technique='bounded stand-in (run-time contracts on the real functions driven by small-scope enumeration; labelled bounded, never counted as proved) decides the property sentence; contract-based deductive verification: sidecar contracts on the real functions, verification conditions generated from the current source of /repo on every run by pyvc (Python AST -> z3/cvc5), every obligation discharged function by function for the listed kernel functions, reported separately as tier P'),
 )
